@@ -214,7 +214,9 @@ def solution_single_time_step(
         FieldMngt.sr_inhb,
         FieldMngt.bunds,
         FieldMngt.z_bund,
-        FieldMngt.curve_number_adj_pct,
+        # the percentage change of the curve number applies only when the
+        # field-management flag curve_number_adj is set
+        FieldMngt.curve_number_adj_pct if FieldMngt.curve_number_adj else 0,
         Soil.cn,
         Soil.adj_cn,
         Soil.z_cn,
